@@ -499,6 +499,11 @@ iso_b = Function('isomorphic', _DFAs, _DFAs, BoolSort())     # opaque name for "
 axiom('iso', 'def', 'isomorphic-def', ForAll([_D1, _D2], iso_b(_D1, _D2) == iso_pred(isofn(_D1, _D2), SV(REC('DFA'), _D1), SV(REC('DFA'), _D2))))
 
 
+iso_map_b = Function('is_iso', HMap, _DFAs, _DFAs, BoolSort())       # opaque name (hide / reveal)
+axiom('iso', 'def', 'is_iso-def', ForAll([_h, _D1, _D2], iso_map_b(_h, _D1, _D2) == iso_pred(_h, SV(REC('DFA'), _D1), SV(REC('DFA'), _D2))))
+axiom('iso', 'lemma', 'iso-witness', ForAll([_h, _D1, _D2], Implies(iso_map_b(_h, _D1, _D2), iso_b(_D1, _D2))))
+
+
 @spec('isomorphic')
 def s_isomorphic(ev, D1, D2): return SV(BOOL, iso_b(D1.z, D2.z))
 @spec('iso_chosen')
@@ -506,13 +511,52 @@ def s_iso_chosen(ev, D1, D2): return SV(MAP(ATOM, ATOM), None)
 @spec('is_iso')
 def s_is_iso(ev, m, D1, D2):
     """the (total extension of the) map m is an isomorphism of the reachable parts"""
-    return SV(BOOL, iso_pred(map_val(m), D1, D2))
+    return SV(BOOL, iso_map_b(map_val(m), D1.z, D2.z))
 @spec('hval')
 def s_hval(ev, D1, D2, x): return SV(ATOM, Select(isofn(D1.z, D2.z), x.z))
 
 
 @spec('keys')
 def s_keys(ev, m): return SV(SET(m.t.args[0]), map_dom(m))
+
+
+# a relation on states given as a Boolean matrix (dfa_isomorphic): its domain, and a chosen partner per state
+RelA = ArraySort(Key2, BoolSort())
+fn_of_rel = Function('fn_of_rel', RelA, HMap)
+rel_dom = Function('rel_dom', RelA, SetA)
+_R = Const('R', RelA)
+axiom('iso', 'def', 'fn_of_rel-choice (definition of the chosen partner: any partner witnesses it)',
+      ForAll([_R, _x, _y], Implies(Select(_R, mkKey2(_x, _y)), Select(_R, mkKey2(_x, Select(fn_of_rel(_R), _x))))))
+axiom('iso', 'def', 'rel_dom', ForAll([_R, _x], Select(rel_dom(_R), _x) == z3.Exists([_y], Select(_R, mkKey2(_x, _y)))))
+
+
+rel_of = Function('rel_of', RelA, RelA, RelA)       # the relation held by a Boolean matrix: pairs that are keys and map to True
+_R2 = Const('R2', RelA); _k2 = Const('k2', Key2)
+axiom('iso', 'def', 'rel_of', ForAll([_R, _R2, _k2], Select(rel_of(_R, _R2), _k2) == And(Select(_R, _k2), Select(_R2, _k2)),
+                                    patterns=[Select(rel_of(_R, _R2), _k2), z3.MultiPattern(rel_of(_R, _R2), Select(_R2, _k2))]))
+def _rel(m): return rel_of(map_dom(m), map_val(m))
+
+
+axiom('iso', 'lemma', 'rel_of-set-true', ForAll([_R, _R2, _k2], rel_of(Store(_R, _k2, True), Store(_R2, _k2, True)) == Store(rel_of(_R, _R2), _k2, True)))
+
+
+@spec('rel')
+def s_rel(ev, m):
+    """the set of pairs marked True in a Boolean matrix"""
+    return SV(SET(KEY2), _rel(m))
+@spec('rel_fn')
+def s_rel_fn(ev, m, x): return SV(ATOM, Select(fn_of_rel(_rel(m)), x.z))
+@spec('rel_dom')
+def s_rel_dom(ev, m): return SV(SET(ATOM), rel_dom(_rel(m)))
+@spec('is_iso_rel')
+def s_is_iso_rel(ev, m, D1, D2):
+    """the chosen-partner function of the Boolean matrix m is an isomorphism of the reachable parts"""
+    return SV(BOOL, iso_rel_b(_rel(m), D1.z, D2.z))
+
+
+iso_rel_b = Function('is_iso_rel', RelA, _DFAs, _DFAs, BoolSort())       # opaque name (hide / reveal)
+axiom('iso', 'def', 'is_iso_rel-def', ForAll([_R, _D1, _D2], iso_rel_b(_R, _D1, _D2) == iso_pred(fn_of_rel(_R), SV(REC('DFA'), _D1), SV(REC('DFA'), _D2))))
+axiom('iso', 'lemma', 'iso-rel-witness', ForAll([_R, _D1, _D2], Implies(iso_rel_b(_R, _D1, _D2), iso_b(_D1, _D2))))
 
 
 # ====================================================================== subset construction (C03)
